@@ -40,6 +40,8 @@ import (
 	"testing"
 	"time"
 
+	"github.com/cespare/xxhash/v2"
+
 	"github.com/prometheus/prometheus/internal/verif/vx"
 	"github.com/prometheus/prometheus/model/exemplar"
 	"github.com/prometheus/prometheus/model/labels"
@@ -253,6 +255,46 @@ type c21Sys struct {
 	ce       *CircularExemplarStorage
 	m        c21Model
 	outcomes func(string)
+	memo     *c21Memo // optional: states whose public observations were already compared
+}
+
+// c21Memo remembers (by a 128-bit hash of Key()) the states in which IterateExemplars and the 27
+// Selects were already compared with the model and found right. Those observations are a function
+// of exactly what Key() records (reference ring + complete physical layout; the index entries
+// follow from the layout once integrity() has passed), i.e. of the same key the BFS merges states
+// on, so reaching such a state through another history cannot show anything new. Verdicts and
+// list integrity are still checked on every transition.
+type c21Memo struct {
+	shards [64]struct {
+		mu sync.Mutex
+		m  map[[2]uint64]struct{}
+	}
+}
+
+func c21MemoKey(k string) [2]uint64 {
+	h := uint64(14695981039346656037)
+	for i := 0; i < len(k); i++ {
+		h = (h ^ uint64(k[i])) * 1099511628211
+	}
+	return [2]uint64{xxhash.Sum64String(k), h}
+}
+
+func (c *c21Memo) seen(k [2]uint64) bool {
+	sh := &c.shards[k[0]%64]
+	sh.mu.Lock()
+	_, ok := sh.m[k]
+	sh.mu.Unlock()
+	return ok
+}
+
+func (c *c21Memo) add(k [2]uint64) {
+	sh := &c.shards[k[0]%64]
+	sh.mu.Lock()
+	if sh.m == nil {
+		sh.m = map[[2]uint64]struct{}{}
+	}
+	sh.m[k] = struct{}{}
+	sh.mu.Unlock()
 }
 
 var c21Metrics = NewExemplarMetrics(nil)
@@ -331,7 +373,12 @@ func c21Trim(s string) string {
 func (s *c21Sys) integrity() *vx.Fail {
 	ce := s.ce
 	n := len(ce.exemplars)
+	linked := 0
+	var buf [256]byte
 	for k, idx := range ce.index {
+		if k != string(idx.seriesLabels.Bytes(buf[:])) {
+			return vx.Failf("exemplar-index-wrong-key", "index entry %q describes series %s", k, idx.seriesLabels)
+		}
 		if idx.oldest < 0 || idx.oldest >= n || idx.newest < 0 || idx.newest >= n {
 			return vx.Failf("exemplar-index-dangling", "index entry %q has oldest=%d newest=%d with %d slots", k, idx.oldest, idx.newest, n)
 		}
@@ -347,10 +394,20 @@ func (s *c21Sys) integrity() *vx.Fail {
 				return vx.Failf("exemplar-list-corrupt", "slot %d of %q has prev=%d, expected %d", i, k, ce.exemplars[i].prev, last)
 			}
 			last, i = i, ce.exemplars[i].next
+			linked++
 		}
 		if last != idx.newest {
 			return vx.Failf("exemplar-list-corrupt", "list of %q ends at slot %d but newest=%d", k, last, idx.newest)
 		}
+	}
+	occupied := 0
+	for i := range ce.exemplars {
+		if ce.exemplars[i].ref != nil {
+			occupied++
+		}
+	}
+	if occupied != linked {
+		return vx.Failf("exemplar-slot-unreachable", "%d slots hold an exemplar but the lists of the %d index entries reach %d", occupied, len(ce.index), linked)
 	}
 	return nil
 }
@@ -402,7 +459,18 @@ func (s *c21Sys) observe() *vx.Fail {
 	if f := s.integrity(); f != nil {
 		return f
 	}
-	return s.observePublic()
+	if s.memo == nil {
+		return s.observePublic()
+	}
+	k := c21MemoKey(s.Key())
+	if s.memo.seen(k) {
+		return nil
+	}
+	f := s.observePublic()
+	if f == nil {
+		s.memo.add(k)
+	}
+	return f
 }
 
 // observePublic compares what the public API shows (IterateExemplars, Select) with the model.
@@ -678,6 +746,9 @@ func TestVerifC21(t *testing.T) {
 	}
 	depths := map[string]int{}
 	for _, c := range cfgs {
+		if r.Quick() && c.Window == 3 && c.Cap == 3 {
+			continue // budget: the most expensive window-3 configuration is left to the thorough tier
+		}
 		d := vx.Pick(r, 4, 5)
 		if c.Window == 3 {
 			// budget: window 4 admits a superset of the out-of-order timestamps of window 3 and is
@@ -687,14 +758,19 @@ func TestVerifC21(t *testing.T) {
 		}
 		depths[c.Name] = d
 		t0 := time.Now()
-		res := r.BFS(c.Name, func() vx.Sys { return c21New(c.Cap, c.Window, note) }, d)
+		memo := &c21Memo{}
+		res := r.BFS(c.Name, func() vx.Sys {
+			s := c21New(c.Cap, c.Window, note)
+			s.memo = memo
+			return s
+		}, d)
 		t.Logf("%s: states=%d transitions=%d depth=%d %.1fs", c.Name, res.States, res.Transitions, res.DepthCompleted, time.Since(t0).Seconds())
 	}
 	depth := depths
 	r.Set("depth", depth)
 	r.Set("operations", len(c21OpNames))
 	r.Set("outcome_classes", outcomes)
-	r.Set("rule", fmt.Sprintf("BFS with de-duplication on (reference ring, complete physical ring layout) over all histories of <=%v operations from %d (32 adds: series A/B x ts 1..4 x value 1/2 x labels x/y; 2 adds with a 129-rune label set; 5 resizes 0..4) for capacity 1..3 x out-of-order window 0/2/3/4 (none, one, two, all older timestamps of the alphabet admitted); after every transition: verdicts, retained ring, 27 Selects, list integrity", depth, len(c21OpNames)))
+	r.Set("rule", fmt.Sprintf("BFS with de-duplication on (reference ring, complete physical ring layout) over all histories of <=%v operations from %d (32 adds: series A/B x ts 1..4 x value 1/2 x labels x/y; 2 adds with a 129-rune label set; 5 resizes 0..4) for capacity 1..3 x out-of-order window 0/2/3/4 (none, one, two, all older timestamps of the alphabet admitted; window 3: depth 4, capacity 3 only in the thorough tier); after every transition: verdicts and list/index integrity; retained ring and 27 Selects once per distinct (model, physical layout) state", depth, len(c21OpNames)))
 	r.Assume("the reference ring encodes the rules documented in tsdb/exemplar.go comments (duplicate of newest ignored, window relative to the newest retained exemplar, equal-timestamp ordering by value then label hash, out-of-order exemplar with an already retained timestamp ignored)")
 	r.Assume("Head appender paths (head_append.go) that call ValidateExemplar/AddExemplar are not driven; the storage is driven directly")
 	for _, o := range []string{"stored", "stored-out-of-order", "ignored-duplicate-of-newest", "ignored-out-of-order-same-ts",
